@@ -137,8 +137,8 @@ func (inv *Invoice) ValidateWithContext(ctx context.Context) error {
 		validation.Field(&inv.IssueDate,
 			cal.DateNotZero(),
 		),
-		validation.Field(&inv.OperationDate),
-		validation.Field(&inv.ValueDate),
+		validation.Field(&inv.OperationDate, cal.DateNotZero()),
+		validation.Field(&inv.ValueDate, cal.DateNotZero()),
 		validation.Field(&inv.Currency,
 			validation.Required,
 			exRule,
@@ -173,6 +173,7 @@ func (inv *Invoice) ValidateWithContext(ctx context.Context) error {
 		validation.Field(&inv.Notes),
 		validation.Field(&inv.Complements),
 		validation.Field(&inv.Meta),
+		validation.Field(&inv.Attachments),
 	)
 }
 
